@@ -513,6 +513,17 @@ func TestC13(t *testing.T) {
 			}
 		}
 	}
+	for i, l := range lines { // error responses: code text, data and the whole marshalled error object
+		kind, _ := inputs[i].(map[string]any)["kind"].(string)
+		if kind != "server-error" || !strings.HasPrefix(l, "c13e ") {
+			continue
+		}
+		f := strings.Fields(l)[2:]
+		if len(f) == 7 && f[4] != "-" {
+			hl = append(hl, "c13b "+f[0], fmt.Sprintf("c13x %s %s %s", f[4], f[5], f[6]))
+			hin = append(hin, map[string]any{"kind": kind, "part": f[0]}, map[string]any{"kind": kind, "error": f[4:]})
+		}
+	}
 	for i, o := range runOracle(t, hl) {
 		res.Count("roundtrip-hypothesis")
 		if o != "1" {
